@@ -20,6 +20,7 @@ def elapsed : List Op → Nat
 def quietFor (i : Nat) : Op → Bool
   | .acquire j => j != i
   | .release j => j != i
+  | .acquireS j _ => j != i
   | _ => true
 
 theorem step_now (cfg : Nat → LockCfg) (st : St) (op : Op) :
@@ -59,6 +60,28 @@ theorem leaseInv_holds_iff (cfg : Nat → LockCfg) (i u : Nat) (st : St) (h : Le
       exact absurd hv (h e he)
     · intro; omega
 
+theorem leaseInv_acquireWith (cfg : Nat → LockCfg) (hd : DistinctIds cfg) (i u : Nat) (st : St) (j secs : Nat)
+    (hji : j ≠ i) (h : LeaseInv cfg i u st) : LeaseInv cfg i u (acquireWith cfg st j secs).1 := by
+  unfold LeaseInv
+  simp only [acquireWith_ent, acquireWith_now]
+  by_cases hk : (cfg i).key = (cfg j).key
+  · have hid : (cfg j).id ≠ (cfg i).id := fun c => hji (hd j i hk.symm c)
+    by_cases hf : freeFor st.store (cfg j).key (cfg j).id
+    · simp only [hf, hk, and_self, if_true]
+      right
+      rcases h with h | ⟨hu, _⟩
+      · by_cases hl : st.store.now < u
+        · have := get_of_ent_live h hl
+          rw [hk] at this
+          rcases hf with hf | hf <;> simp [this] at hf
+          exact absurd hf.symm hid
+        · refine ⟨by omega, ?_⟩
+          intro e he; simp at he; rw [← he]; exact hid
+      · refine ⟨hu, ?_⟩
+        intro e he; simp at he; rw [← he]; exact hid
+    · simpa [hf, LeaseInv] using h
+  · simpa [hk, LeaseInv] using h
+
 theorem leaseInv_step (cfg : Nat → LockCfg) (hd : DistinctIds cfg) (i u : Nat) (st : St) (op : Op)
     (hq : quietFor i op = true) (h : LeaseInv cfg i u st) : LeaseInv cfg i u (step cfg st op).1 := by
   cases op with
@@ -68,26 +91,9 @@ theorem leaseInv_step (cfg : Nat → LockCfg) (hd : DistinctIds cfg) (i u : Nat)
     · exact Or.inr ⟨by simp [step, Store.advance]; omega, h⟩
   | setExpire j s => exact h
   | acquire j =>
-    have hji : j ≠ i := by simpa [quietFor] using hq
-    unfold LeaseInv
-    simp only [step, acquire, acquireWith_ent, acquireWith_now]
-    by_cases hk : (cfg i).key = (cfg j).key
-    · have hid : (cfg j).id ≠ (cfg i).id := fun c => hji (hd j i hk.symm c)
-      by_cases hf : freeFor st.store (cfg j).key (cfg j).id
-      · simp only [hf, hk, and_self, if_true]
-        right
-        rcases h with h | ⟨hu, _⟩
-        · by_cases hl : st.store.now < u
-          · have := get_of_ent_live h hl
-            rw [hk] at this
-            rcases hf with hf | hf <;> simp [this] at hf
-            exact absurd hf.symm hid
-          · refine ⟨by omega, ?_⟩
-            intro e he; simp at he; rw [← he]; exact hid
-        · refine ⟨hu, ?_⟩
-          intro e he; simp at he; rw [← he]; exact hid
-      · simpa [hf, LeaseInv] using h
-    · simpa [hk, LeaseInv] using h
+    exact leaseInv_acquireWith cfg hd i u st j _ (by simpa [quietFor] using hq) h
+  | acquireS j secs =>
+    exact leaseInv_acquireWith cfg hd i u st j secs (by simpa [quietFor] using hq) h
   | release j =>
     have hji : j ≠ i := by simpa [quietFor] using hq
     unfold LeaseInv
@@ -139,6 +145,37 @@ def grun (cfg : Nat → LockCfg) : St → Belief → List Op → St × Belief
 def BeliefInv (cfg : Nat → LockCfg) (st : St) (b : Belief) : Prop :=
   ∀ i u, b i = some u → st.store.now < u → st.store.ent (cfg i).key = some ⟨(cfg i).id, some u⟩
 
+theorem beliefInv_acquireWith (cfg : Nat → LockCfg) (hd : DistinctIds cfg) (st : St) (b : Belief) (j secs : Nat)
+    (h : BeliefInv cfg st b) :
+    BeliefInv cfg (acquireWith cfg st j secs).1
+      (if (acquireWith cfg st j secs).2 then updB b j (some (st.store.now + (secs * 1000 + 500))) else b) := by
+  by_cases hf : freeFor st.store (cfg j).key (cfg j).id
+  · have hr : (acquireWith cfg st j secs).2 = true := (acquireWith_result _ _ _ _).2 hf
+    intro i u hb hl
+    simp only [hr, if_true, acquireWith_now, acquireWith_ent] at hb hl ⊢
+    by_cases hij : i = j
+    · subst hij
+      simp only [updB, if_true] at hb
+      simp only [hf, and_self, if_true]
+      have : leaseMs secs = secs * 1000 + 500 := rfl
+      rw [this]
+      simpa using hb
+    · simp only [updB, hij, if_false] at hb
+      have he := h i u hb hl
+      by_cases hk : (cfg i).key = (cfg j).key
+      · have hid : (cfg i).id ≠ (cfg j).id := fun c => hij (hd i j hk c)
+        have hg := get_of_ent_live he hl
+        rw [hk] at hg
+        rcases hf with hf | hf <;> simp [hg] at hf
+        exact absurd hf hid
+      · simpa [hk] using he
+  · have hr : (acquireWith cfg st j secs).2 = false := by
+      cases hc : (acquireWith cfg st j secs).2 with
+      | false => rfl
+      | true => exact absurd ((acquireWith_result _ _ _ _).1 hc) hf
+    simp only [hr, acquireWith_unchanged cfg st j _ hf]
+    exact h
+
 theorem beliefInv_step (cfg : Nat → LockCfg) (hd : DistinctIds cfg) (st : St) (b : Belief) (op : Op)
     (h : BeliefInv cfg st b) :
     BeliefInv cfg (step cfg st op).1 (b.step st.store.now st.secs op (step cfg st op).2) := by
@@ -148,33 +185,8 @@ theorem beliefInv_step (cfg : Nat → LockCfg) (hd : DistinctIds cfg) (st : St) 
     simp only [step, Store.advance, Belief.step] at hb hl ⊢
     exact h i u hb (by omega)
   | setExpire j s => exact h
-  | acquire j =>
-    by_cases hf : freeFor st.store (cfg j).key (cfg j).id
-    · have hr : (acquireWith cfg st j (st.secs j)).2 = true := (acquireWith_result _ _ _ _).2 hf
-      intro i u hb hl
-      simp only [step, acquire, Belief.step, hr, if_true, acquireWith_now, acquireWith_ent] at hb hl ⊢
-      by_cases hij : i = j
-      · subst hij
-        simp only [updB, if_true] at hb
-        simp only [hf, and_self, if_true]
-        have : leaseMs (st.secs i) = st.secs i * 1000 + 500 := rfl
-        rw [this]
-        simpa using hb
-      · simp only [updB, hij, if_false] at hb
-        have he := h i u hb hl
-        by_cases hk : (cfg i).key = (cfg j).key
-        · have hid : (cfg i).id ≠ (cfg j).id := fun c => hij (hd i j hk c)
-          have hg := get_of_ent_live he hl
-          rw [hk] at hg
-          rcases hf with hf | hf <;> simp [hg] at hf
-          exact absurd hf hid
-        · simpa [hk] using he
-    · have hr : (acquireWith cfg st j (st.secs j)).2 = false := by
-        cases hc : (acquireWith cfg st j (st.secs j)).2 with
-        | false => rfl
-        | true => exact absurd ((acquireWith_result _ _ _ _).1 hc) hf
-      simp only [step, acquire, Belief.step, hr, acquireWith_unchanged cfg st j _ hf]
-      exact h
+  | acquire j => exact beliefInv_acquireWith cfg hd st b j (st.secs j) h
+  | acquireS j secs => exact beliefInv_acquireWith cfg hd st b j secs h
   | release j =>
     intro i u hb hl
     simp only [step, Belief.step, release_now, release_ent] at hb hl ⊢
@@ -217,6 +229,17 @@ theorem grun_fst (cfg : Nat → LockCfg) (ops : List Op) : ∀ st b, (grun cfg s
 def winners (cfg : Nat → LockCfg) : St → List Nat → List Nat
   | _, [] => []
   | st, j :: js => (if (acquire cfg st j).2 then [j] else []) ++ winners cfg (acquire cfg st j).1 js
+
+theorem winners_subset (cfg : Nat → LockCfg) (x : Nat) (js : List Nat) :
+    ∀ st : St, x ∈ winners cfg st js → x ∈ js := by
+  induction js with
+  | nil => intro st h; simp [winners] at h
+  | cons j js ih =>
+    intro st h
+    simp only [winners, List.mem_append] at h
+    rcases h with h | h
+    · split at h <;> simp at h; simp [h]
+    · exact List.mem_cons_of_mem _ (ih _ h)
 
 theorem acquire_get_same (cfg : Nat → LockCfg) (st : St) (j : Nat) (v : String)
     (hg : st.store.get (cfg j).key = some v) :
